@@ -487,8 +487,6 @@ SPEC = {
     'runner': 'c17',
     'bin': 'c17',
     'gen_cases': gen_cases,
-    'partial_note': 'adjust_zero_pages: general refinement theorem (table after = fix_tree of the forest) not proved; '
-                    'checked per case by the harness oracle and on one proved example',
     'rule': 'random bookmark forests (random/chain/wide/flat, 1..60 nodes) linearised in preorder, breadth-first or a random '
             'parent-before-child interleaving, distinct titles over ASCII (incl. PDF string specials), Latin, BMP (incl. U+FEFF, '
             'U+2828) and astral characters, any page of generated page trees with 1..40 pages, zero-page parents fixed by '
@@ -522,7 +520,9 @@ MANIFEST = {
                   'bookmark and within the reference budget; and the same table of contents and page list after a save/load '
                   'round trip, as a composition lemma over the C01 statement (objects equal up to number normalisation). Forests '
                   'higher than OUTLINE_DEPTH_LIMIT+1 = 257 levels are a proved-and-replayed known finding (C17-deep-outline: '
-                  'get_toc answers Err). adjust_zero_pages is tied by correspondence and a harness oracle only (one proved example). '
+                  'get_toc answers Err). adjust_zero_pages is proved to turn a table holding a forest into one holding the specified '
+                  'fixed-up forest (first child with a page, recursively), the denoted forest has distinct ids and height <= number '
+                  'of calls, and the whole pipeline calls -> adjust_zero_pages -> build_outline -> attach -> get_toc is composed. '
                   'Tied to the implementation by differential runs through the public API incl. save_to + load_mem on every case.',
     'level_note': 'Trusted: Coq kernel; translator (DEREF_LIMIT, PAGE_TREE_DEPTH_LIMIT, OUTLINE_DEPTH_LIMIT and the budget/depth '
                   'shape anchors of get_outlines); hand-written models tied by correspondence (observable: bookmark table, all '
